@@ -124,6 +124,24 @@ fn make_subjects(run: &mut Run) -> Vec<Subject> {
         }
         push("chain2", "jpg", r2, run);
     }
+    // redaction: B (edit of A) redacts A's assertion "org.verif.redactme" while B itself carries an
+    // assertion with the same label
+    {
+        let r = (|| -> Result<(Vec<u8>, Vec<u8>), String> {
+            let defa = json!({"title": "redact-parent", "assertions": [
+                {"label": "org.verif.redactme", "data": {"marker": "C02-parent-secret"}},
+                {"label": "org.verif.keep", "data": {"marker": "C02-parent-keep"}}]});
+            let (a, _) = sign("jpg", &jpg, defa, BuilderIntent::Create(c2pa::DigitalSourceType::DigitalCapture), &json!({}), &[])?;
+            let ctx = Context::new().with_settings(settings(&json!({})).as_str()).map_err(|e| e.to_string())?;
+            let ra = Reader::from_context(ctx).with_stream("jpg", Cursor::new(a.clone())).map_err(|e| e.to_string())?;
+            let label = ra.active_label().ok_or("no active label")?.to_string();
+            let uri = format!("self#jumbf=/c2pa/{label}/c2pa.assertions/org.verif.redactme");
+            let defb = json!({"title": "redactor", "redactions": [uri], "assertions": [
+                {"label": "org.verif.redactme", "data": {"marker": "C02-own-assertion-with-the-same-label"}}]});
+            sign("jpg", &a, defb, BuilderIntent::Edit, &json!({}), &[])
+        })();
+        push("redaction-same-label", "jpg", r, run);
+    }
     // claim v1 with ingredient `data` carried in a data box (hashed URI from the signed ingredient assertion)
     {
         let r = (|| -> Result<(Vec<u8>, Vec<u8>), String> {
